@@ -91,8 +91,6 @@ Proof. eexists; split; [reflexivity|]. split; simpl; [|reflexivity]. repeat cons
 
 Section ProcessP.
 Variable O : oracles.
-(* contract of the oracle field: a product of minima of non-negative probabilities (|coeff| / kappa) *)
-Hypothesis smallest_nonneg : forall a, (0 <= smallest_probability O a)%Q.
 
 Lemma step_registries : forall g c, registries (fst (step O g c)) = registries g.
 Proof.
@@ -117,36 +115,30 @@ Proof.
   destruct (reaches_sampler O a ns); reflexivity.
 Qed.
 
-(* num_samples = inf: threshold 0 <= smallest probability, the all-exact branch returns *)
-Lemma exact_never_samples : forall a, reaches_sampler O a NInf = false.
-Proof.
-  intros a; unfold reaches_sampler; simpl.
-  assert (E : Qle_bool 0 (smallest_probability O a) = true) by (apply Qle_bool_iff, smallest_nonneg).
-  now rewrite E.
-Qed.
+Lemma exact_gen : forall a ns, exact_class O (Gen O a ns) = true -> reaches_sampler O a ns = false.
+Proof. intros a ns E; simpl in E. now destruct (reaches_sampler O a ns). Qed.
 
 Lemma step_np : forall g c, exact_class O c = true -> np_global (fst (step O g c)) = np_global g.
 Proof.
-  intros g [a s|a [|n]|a] E; simpl in *; try reflexivity; try discriminate.
-  now rewrite exact_never_samples.
+  intros g [a s|a ns|a] E; try reflexivity.
+  cbn [step]. now rewrite (exact_gen _ _ E).
 Qed.
 
 (* the state after a call of the three classes is the state before, literally *)
 Lemma step_state_id : forall g c, exact_class O c = true -> fst (step O g c) = g.
 Proof.
-  intros g [a s|a [|n]|a] E; simpl in *; try reflexivity; try discriminate.
-  - rewrite greedy_writes_id. now destruct g.
-  - now rewrite exact_never_samples.
+  intros g [a s|a ns|a] E; try reflexivity.
+  - cbn [step fst]. rewrite greedy_writes_id. now destruct g.
+  - cbn [step]. now rewrite (exact_gen _ _ E).
 Qed.
 
-(* only a finite-num_samples generation that reaches the sampler moves numpy's global state *)
+(* only a generation that reaches the sampler moves numpy's global state *)
 Lemma np_writer : forall g c, np_global (fst (step O g c)) <> np_global g ->
-  exists a n, c = Gen O a (NFin n) /\ reaches_sampler O a (NFin n) = true.
+  exists a ns, c = Gen O a ns /\ reaches_sampler O a ns = true.
 Proof.
-  intros g [a s|a [|n]|a] H.
+  intros g [a s|a ns|a] H.
   - exfalso; apply H; reflexivity.
-  - exfalso; apply H. cbn [step]. now rewrite exact_never_samples.
-  - cbn [step] in H. destruct (reaches_sampler O a (NFin n)) eqn:E; [eauto|].
+  - cbn [step] in H. destruct (reaches_sampler O a ns) eqn:E; [eauto|].
     exfalso; apply H; reflexivity.
   - exfalso; apply H; reflexivity.
 Qed.
@@ -155,11 +147,11 @@ Qed.
 Lemma result_reads_registries : forall g g' c, exact_class O c = true ->
   registries g = registries g' -> snd (step O g c) = snd (step O g' c).
 Proof.
-  intros g g' [a s|a [|n]|a] E R; simpl in *; try discriminate;
+  intros g g' [a s|a ns|a] E R;
     unfold registries in R; inversion R as [[R1 R2 R3 R4]].
-  - reflexivity.
-  - rewrite !exact_never_samples. reflexivity.
-  - reflexivity.
+  - cbn [step snd]. now rewrite R1, R3, R4.
+  - cbn [step]. rewrite (exact_gen _ _ E). cbn [snd]. now rewrite R4.
+  - cbn [step snd]. now rewrite R4.
 Qed.
 
 Lemma history_independent : forall g0 h1 h2 c, exact_class O c = true ->
@@ -182,12 +174,30 @@ Proof.
   simpl. now rewrite greedy_writes_id, R1, R3, R4.
 Qed.
 
-Lemma gen_exact_closed_form : forall g0 h a,
-  snd (step O (run O g0 h) (GenExact O a)) = RGen O (gen_exact_pure O (basis_registry g0) a NInf).
+(* any generation that does not reach the sampler (finite num_samples included) *)
+Lemma gen_nosampler_closed_form : forall g0 h a ns, reaches_sampler O a ns = false ->
+  snd (step O (run O g0 h) (Gen O a ns)) = RGen O (gen_exact_pure O (basis_registry g0) a ns).
 Proof.
-  intros g0 h a.
+  intros g0 h a ns E.
   pose proof (run_registries h g0) as R. unfold registries in R. inversion R as [[R1 R2 R3 R4]].
-  unfold GenExact; simpl. now rewrite exact_never_samples, R4.
+  cbn [step]. rewrite E. cbn [snd]. now rewrite R4.
+Qed.
+
+(* weights.py: finite num_samples >= 1 with threshold 1/num_samples <= smallest probability: the all-exact branch *)
+Lemma finite_exact_threshold : forall a n, (1 / n <= smallest_probability O a)%Q ->
+  reaches_sampler O a (NFin n) = false.
+Proof.
+  intros a n H. unfold reaches_sampler. destruct (negb (ns_valid (NFin n))); [reflexivity|].
+  assert (E : Qle_bool (threshold (NFin n)) (smallest_probability O a) = true) by (apply Qle_bool_iff; exact H).
+  now rewrite E.
+Qed.
+
+(* num_samples < 1 is refused before anything is read or written *)
+Lemma invalid_never_samples : forall a n, (n < 1)%Q -> reaches_sampler O a (NFin n) = false.
+Proof.
+  intros a n H. unfold reaches_sampler, ns_valid.
+  destruct (Qle_bool 1 n) eqn:E; [|reflexivity].
+  apply Qle_bool_iff in E. exfalso. apply (Qlt_not_le _ _ H E).
 Qed.
 
 Lemma from_instruction_closed_form : forall g0 h a,
@@ -217,5 +227,24 @@ Lemma fresh_interpreter : forall actions basis np py np' py' h c, exact_class O 
 Proof.
   intros. apply result_reads_registries; [assumption|]. now rewrite run_registries.
 Qed.
+
+(* ---- num_samples = inf ---- *)
+(* contract of the oracle field: a product of minima of non-negative probabilities (|coeff| / kappa) *)
+Hypothesis smallest_nonneg : forall a, (0 <= smallest_probability O a)%Q.
+
+(* threshold 0 <= smallest probability: the all-exact branch returns *)
+Lemma exact_never_samples : forall a, reaches_sampler O a NInf = false.
+Proof.
+  intros a; unfold reaches_sampler; simpl.
+  assert (E : Qle_bool 0 (smallest_probability O a) = true) by (apply Qle_bool_iff, smallest_nonneg).
+  now rewrite E.
+Qed.
+
+Lemma inf_exact_class : forall a, exact_class O (GenExact O a) = true.
+Proof. intros a; unfold GenExact; simpl. now rewrite exact_never_samples. Qed.
+
+Lemma gen_exact_closed_form : forall g0 h a,
+  snd (step O (run O g0 h) (GenExact O a)) = RGen O (gen_exact_pure O (basis_registry g0) a NInf).
+Proof. intros; apply gen_nosampler_closed_form, exact_never_samples. Qed.
 
 End ProcessP.
